@@ -135,6 +135,19 @@ class Builder:
         cmd = parts[0]
         if cmd == "source":
             self.add_source(parts[1], parts[2])
+        elif cmd == "source-expanded":
+            # //@ source-expanded <alias> <crate> <crate dir> <module path> <Struct>: the serde_workaround! expansion
+            # for that struct, produced by rustc from the working tree on this run (vx/expand.py)
+            from . import expand
+            alias, crate, cdir, module, struct = d.split()[1:6]
+            try:
+                pth = expand.piece(self.repo, crate, cdir, module, struct)
+            except expand.ExpandError as e:
+                raise LostAnchor(str(e))
+            self.add_source(alias, pth)
+            self.report.setdefault("expanded_sources", []).append(
+                {"alias": alias, "crate": crate, "module": module, "struct": struct, "piece": os.path.basename(pth),
+                 "how": "cargo +nightly rustc -p %s --lib -- -Zunpretty=expanded on the working tree, this run" % crate})
         elif cmd in ("default-tags", "tags", "verus-flags", "rustc-flags", "table-hook", "main-hook", "compile-run"):
             pass  # read by vx.unit.unit_tags
         elif cmd == "include":
@@ -284,6 +297,10 @@ class Builder:
         vm = re.match(r"pub\s*\(\s*(?:super|crate|in [^)]*)\s*\)", m[a:b])
         if getattr(self, "_makepub", False) and vm:
             edits.append(Edit(a, a + vm.end(), [Seg("pub", "repo", file=rel, line=rs.line_of(src, a))]))
+            self.count("makepub")
+        elif getattr(self, "_makepub", False) and re.match(r"(struct|enum)\b", m[a:b]):
+            # a private item (no visibility at all) made `pub` (visibility only: contracts of trait impls mention it)
+            edits.append(Edit(a, a, [Seg("pub ", "repo", file=rel, line=rs.line_of(src, a))]))
             self.count("makepub")
         if pubfields and it.body_open is not None:
             # private fields made `pub` so that contracts of pub fns may mention them (visibility only)
